@@ -122,6 +122,14 @@ func Authorize(w http.ResponseWriter, r *http.Request, authorizer Authorizer) {
 		AuthRequestError(w, r, authReq, oidc.ErrRequestNotSupported(), authorizer)
 		return
 	}
+	if client == nil {
+		// a custom AuthorizeValidator replaced the validation above, which is what loads the client
+		client, err = authorizer.Storage().GetClientByClientID(ctx, authReq.ClientID)
+		if err != nil {
+			AuthRequestError(w, r, authReq, oidc.DefaultToServerError(err, "unable to retrieve client by id"), authorizer)
+			return
+		}
+	}
 	req, err := authorizer.Storage().CreateAuthRequest(ctx, authReq, userID)
 	if err != nil {
 		AuthRequestError(w, r, authReq, oidc.DefaultToServerError(err, "unable to save auth request"), authorizer)
